@@ -10,6 +10,10 @@
 -/
 import Golib.HMap.Types
 import Golib.Gen.C12
+import Golib.Gen.C12IR
+import Golib.HMap.IR
+
+set_option linter.unusedSectionVars false
 
 namespace C12Gen
 open HMap
@@ -30,5 +34,101 @@ theorem StringSet_desc : ∃ m, findType plainTypes "StringSet" = some m ∧ (Ge
 theorem types_match :
     (Gen.C12.types.map (·.name) = plainTypes.map (·.name)) ∧
     (Gen.C12.types.zip plainTypes).all (fun p => decide (p.1 = p.2) || decide (p.1 = p.2.repaired)) = true := by decide
+
+
+/-! ### interpreted tie A: the transcribed statements of put / add / addIfExist / unipoint / remove / rehash, run with the
+    semantics of `Golib.HMap.IR`, are the CodeModel's steps — for every state, key, value, mode, hash function and
+    threshold function.  (`Gen.C12IR.*` is regenerated from the Go source on every run.) -/
+
+section interpreted
+open HMap.IR
+variable {K V : Type} [DecidableEq K] [DecidableEq V]
+
+/-- IntIntMap.put -/
+theorem IntIntMap_put_interp (d : Desc K V) (hash : K → Nat) (thr : Nat → Nat) (pm : PMap K V) (k : K) (v : V) :
+    runP d hash thr Gen.C12IR.IntIntMap_put pm k v = expectPutP d hash thr (putShape "IntIntMap") pm k v :=
+  put_plain_interp d hash thr (putShape "IntIntMap") rfl (by decide) rfl rfl _ (by decide) pm k v
+
+/-- IntIntMap.add (fresh key: `return value`, the D17 deviation, is part of the shape) -/
+theorem IntIntMap_add_interp (d : Desc K V) (hash : K → Nat) (thr : Nat → Nat) (pm : PMap K V) (k : K) (v : V) :
+    runP d hash thr Gen.C12IR.IntIntMap_add pm k v = expectPutP d hash thr (addShape "IntIntMap") pm k v :=
+  put_plain_interp d hash thr (addShape "IntIntMap") rfl (by decide) rfl rfl _ (by decide) pm k v
+
+/-- IntIntMap.addIfExist -/
+theorem IntIntMap_addIfExist_interp (pd : PDesc K V) (hash : K → Nat) (thr : Nat → Nat) (pm : PMap K V) (k : K) (v : V) :
+    runP pd.toDesc hash thr Gen.C12IR.IntIntMap_addIfExist pm k v =
+      ((pm.addIfExist hash pd k v).1, some (if (pm.tab.get hash k).isSome then Ret.cur else Ret.zero)) := by
+  rw [show Gen.C12IR.IntIntMap_addIfExist = canonAddIfExist .cur .zero from by decide]
+  exact canonAddIfExist_correct hash thr .cur .zero pd pm k v
+
+/-- IntKeyMap.Put -/
+theorem IntKeyMap_put_interp (d : Desc K V) (hash : K → Nat) (thr : Nat → Nat) (pm : PMap K V) (k : K) (v : V) :
+    runP d hash thr Gen.C12IR.IntKeyMap_put pm k v = expectPutP d hash thr (putShape "IntKeyMap") pm k v :=
+  put_plain_interp d hash thr (putShape "IntKeyMap") rfl (by decide) rfl rfl _ (by decide) pm k v
+
+/-- IntSet.put -/
+theorem IntSet_put_interp {K : Type} [DecidableEq K] (d : Desc K Unit) (hash : K → Nat) (thr : Nat → Nat) (pm : PMap K Unit) (k : K) :
+    runP d hash thr Gen.C12IR.IntSet_put pm k () = expectPutP d hash thr (putShape "IntSet") pm k () :=
+  put_plainSet_interp d hash thr (putShape "IntSet") rfl rfl rfl _ (by decide) pm k () (fun _ _ => rfl)
+
+/-- StringSet.unipoint (Put and Unipoint call it), with its empty-key guard -/
+theorem StringSet_put_interp {K : Type} [DecidableEq K] (d : Desc K Unit) (hash : K → Nat) (thr : Nat → Nat) (pm : PMap K Unit) (k : K) :
+    runP d hash thr Gen.C12IR.StringSet_put pm k () = expectPutP d hash thr (putShape "StringSet") pm k () :=
+  put_plainSet_interp d hash thr (putShape "StringSet") rfl rfl rfl _ (by decide) pm k () (fun _ _ => rfl)
+
+/-- IntIntMap.remove -/
+theorem IntIntMap_remove_interp (d : Desc K V) (hash : K → Nat) (thr : Nat → Nat) (pm : PMap K V) (k : K) (v : V) :
+    runP d hash thr Gen.C12IR.IntIntMap_remove pm k v = expectRemoveP d hash (removeShape "IntIntMap") pm k :=
+  remove_plain_interp d hash thr (removeShape "IntIntMap") rfl _ (by decide) pm k v
+
+/-- IntIntMap.rehash (the plain maps' `grow` installs exactly this table and threshold) -/
+theorem IntIntMap_rehash_interp (hash : K → Nat) (thr : Nat → Nat) (pm : PMap K V) :
+    toP (interpRehash hash thr Gen.C12IR.IntIntMap_rehash (ofP pm)) =
+      { pm with tab := pm.tab.rehash hash, threshold := thr (pm.tab.rehash hash).cap } := by
+  rw [show Gen.C12IR.IntIntMap_rehash = canonRehash from by decide, rehash_correct]; rfl
+
+/-- IntKeyMap.remove -/
+theorem IntKeyMap_remove_interp (d : Desc K V) (hash : K → Nat) (thr : Nat → Nat) (pm : PMap K V) (k : K) (v : V) :
+    runP d hash thr Gen.C12IR.IntKeyMap_remove pm k v = expectRemoveP d hash (removeShape "IntKeyMap") pm k :=
+  remove_plain_interp d hash thr (removeShape "IntKeyMap") rfl _ (by decide) pm k v
+
+/-- IntKeyMap.rehash (the plain maps' `grow` installs exactly this table and threshold) -/
+theorem IntKeyMap_rehash_interp (hash : K → Nat) (thr : Nat → Nat) (pm : PMap K V) :
+    toP (interpRehash hash thr Gen.C12IR.IntKeyMap_rehash (ofP pm)) =
+      { pm with tab := pm.tab.rehash hash, threshold := thr (pm.tab.rehash hash).cap } := by
+  rw [show Gen.C12IR.IntKeyMap_rehash = canonRehash from by decide, rehash_correct]; rfl
+
+/-- IntSet.remove -/
+theorem IntSet_remove_interp (d : Desc K V) (hash : K → Nat) (thr : Nat → Nat) (pm : PMap K V) (k : K) (v : V) :
+    runP d hash thr Gen.C12IR.IntSet_remove pm k v = expectRemoveP d hash (removeShape "IntSet") pm k :=
+  remove_plain_interp d hash thr (removeShape "IntSet") rfl _ (by decide) pm k v
+
+/-- IntSet.rehash (the plain maps' `grow` installs exactly this table and threshold) -/
+theorem IntSet_rehash_interp (hash : K → Nat) (thr : Nat → Nat) (pm : PMap K V) :
+    toP (interpRehash hash thr Gen.C12IR.IntSet_rehash (ofP pm)) =
+      { pm with tab := pm.tab.rehash hash, threshold := thr (pm.tab.rehash hash).cap } := by
+  rw [show Gen.C12IR.IntSet_rehash = canonRehash from by decide, rehash_correct]; rfl
+
+/-- StringSet.remove -/
+theorem StringSet_remove_interp (d : Desc K V) (hash : K → Nat) (thr : Nat → Nat) (pm : PMap K V) (k : K) (v : V) :
+    runP d hash thr Gen.C12IR.StringSet_remove pm k v = expectRemoveP d hash (removeShape "StringSet") pm k :=
+  remove_plain_interp d hash thr (removeShape "StringSet") rfl _ (by decide) pm k v
+
+/-- StringSet.rehash (the plain maps' `grow` installs exactly this table and threshold) -/
+theorem StringSet_rehash_interp (hash : K → Nat) (thr : Nat → Nat) (pm : PMap K V) :
+    toP (interpRehash hash thr Gen.C12IR.StringSet_rehash (ofP pm)) =
+      { pm with tab := pm.tab.rehash hash, threshold := thr (pm.tab.rehash hash).cap } := by
+  rw [show Gen.C12IR.StringSet_rehash = canonRehash from by decide, rehash_correct]; rfl
+
+/-- the transcribed `IntIntMap.add` on a fresh and on a present key (D17 visible in the returned token) -/
+example :
+    let d : Desc Int Int := { comb := fun a b => a + b, veq := fun a b => a == b }
+    let p0 : PMap Int Int := PMap.new (fun c => c) 3
+    let r1 := runP d (fun k => k.toNat) (fun c => c) Gen.C12IR.IntIntMap_add p0 5 7
+    let r2 := runP d (fun k => k.toNat) (fun c => c) Gen.C12IR.IntIntMap_add r1.1 5 1
+    r1.2 = some Ret.value ∧ r2.2 = some Ret.old ∧ r2.1.tab.get (fun k => k.toNat) 5 = some 8 := by
+  decide
+
+end interpreted
 
 end C12Gen
